@@ -17,6 +17,9 @@ reaches the rules in the same shape:
                                       target read on the right-hand side)
   K8  a = b = CONST               ->  a = CONST; b = CONST
   K11 k = c; for x in IT: BODY; k += 1  ->  for k, x in enumerate(IT, c)
+      (the increment - k += 1 or k = k + 1 - may stand anywhere at the top
+      level of the body if nothing behind it reads k and no continue comes
+      before it)
   K14 np.f(a, out=x)   (statement) ->  x = np.f(a, out=x)  (NumPy returns
                                       its out array)
   K13 for x in E: yield x         ->  yield from E       (x not used
@@ -399,19 +402,39 @@ class Canon(ast.NodeTransformer):
                 while j < len(out) and k not in _names(out[j]):
                     j += 1
                 lp = out[j] if j < len(out) else None
+                def is_inc(x):
+                    if isinstance(x, ast.AugAssign) and isinstance(
+                            x.target, ast.Name) and x.target.id == k and \
+                            isinstance(x.op, ast.Add) and isinstance(
+                                x.value, ast.Constant) and \
+                            x.value.value == 1:
+                        return True
+                    # k = k + 1 / k = 1 + k
+                    return isinstance(x, ast.Assign) and len(
+                        x.targets) == 1 and isinstance(
+                            x.targets[0], ast.Name) and \
+                        x.targets[0].id == k and isinstance(
+                            x.value, ast.BinOp) and isinstance(
+                                x.value.op, ast.Add) and sorted(
+                        ast.dump(y) for y in (x.value.left, x.value.right)
+                    ) == sorted([ast.dump(ast.Name(id=k, ctx=ast.Load())),
+                                 ast.dump(ast.Constant(value=1))])
+                m = None
                 if isinstance(lp, ast.For) and not lp.orelse and lp.body \
-                        and isinstance(lp.body[-1], ast.AugAssign) and \
-                        isinstance(lp.body[-1].target, ast.Name) and \
-                        lp.body[-1].target.id == k and isinstance(
-                            lp.body[-1].op, ast.Add) and isinstance(
-                                lp.body[-1].value, ast.Constant) and \
-                        lp.body[-1].value.value == 1 and \
-                        k not in _names(lp.iter) | _names(lp.target):
-                    inner = lp.body[:-1]
+                        and k not in _names(lp.iter) | _names(lp.target):
+                    incs = [ix for ix, x in enumerate(lp.body) if is_inc(x)]
+                    # the increment is one unconditional statement of the
+                    # body and nothing behind it looks at the counter
+                    if len(incs) == 1 and not any(
+                            k in _names(x) for x in lp.body[incs[0] + 1:]):
+                        m = incs[0]
+                if m is not None:
+                    inner = lp.body[:m] + lp.body[m + 1:]
+                    before = lp.body[:m]
                     stores = [n for s_ in inner for n in ast.walk(s_)
                               if isinstance(n, ast.Name) and n.id == k
                               and isinstance(n.ctx, (ast.Store, ast.Del))]
-                    conts = [n for s_ in inner for n in ast.walk(s_)
+                    conts = [n for s_ in before for n in ast.walk(s_)
                              if isinstance(n, ast.Continue)]
                     in_loop = {id(n) for n in ast.walk(lp)}
                     after = [n for n in ast.walk(fn)
